@@ -40,6 +40,18 @@ Proof.
   cbn [find_schema]. rewrite N1. apply IH, N2.
 Qed.
 
+(** onion_message (type 513): the packet codec round-trips for ANY hop_data length the u16 packet
+    length admits (the packet is version(1) key(33) hop_data hmac(32), i.e. at least 66 bytes) *)
+Lemma om_packet_roundtrip pk b rest : 66 <= len b < 65536 -> pk (zdrop 1 (ztake 34 b)) = true ->
+  bdec pk BOmPacket (benc BOmPacket (VB b) ++ rest) = ROk (VB b, rest).
+Proof.
+  intros L V. apply bdec_rt. cbn [bdom]. rewrite V.
+  destruct (Z.leb_spec 66 (len b)); [|lia]. destruct (Z.ltb_spec (len b) 65536); [|lia]. reflexivity.
+Qed.
+Lemma onion_message_roundtrip pk m : msg_dom pk s_OnionMessage m = true ->
+  msg_dec pk s_OnionMessage (msg_enc s_OnionMessage m) = ROk (m, []).
+Proof. intros D. apply extracted_roundtrip; [unfold all_schemas; cbn [In]; tauto|exact D]. Qed.
+
 (** The recursion bound of the TLV loop does not influence its result. *)
 Lemma tlv_fuel_irrelevant pk es f1 f2 last acc b :
   (List.length b <= f1)%nat -> (List.length b <= f2)%nat ->
